@@ -1822,9 +1822,9 @@ void femm::FemmProblem::mirrorCopy(double x0, double y0, double x1, double y1, f
                 std::unique_ptr<CArcSegment> newarc = MAKE_UNIQUE<CArcSegment>(*arc);
                 newarc->IsSelected = false;
                 // set endpoints
-                newarc->n0 = (int)nodelist.size();
+                newarc->n1 = (int)nodelist.size(); // a mirrored arc runs the other way round
                 nodelist.push_back(std::move(n0));
-                newarc->n1 = (int)nodelist.size();
+                newarc->n0 = (int)nodelist.size();
                 nodelist.push_back(std::move(n1));
                 arclist.push_back(std::move(newarc));
             }
